@@ -52,4 +52,14 @@ TEXTS = {
         "level_text": "Exploration: >10^6 generated streams and tables per quick run; the ordering premise is checked by the model before the ordering oracle votes.",
         "level_note": "tables are static (built through the public API), as the sorter caches lifecycle start times",
     },
+    "C11": {
+        "technique": T + "specification oracle (criteria conjunction with catalogue predicates instead of a regex engine) over Filter::matches for filters built through every library front end; complete sweep of the small universe plus random criteria subsets",
+        "level_text": "Exploration, exhaustive on the small universe in the thorough tier (all single-criterion filters x all 256 type bytes x id universe x negation x enabled); >10^7 filter/message pairs per front end in quick.",
+        "level_note": "trusts the 40-line specification and the predicate catalogue; ids are printable ASCII",
+    },
+    "C12": {
+        "technique": T + "specification oracle for the keep rule over both implementations (stream filter of convert, set matcher of remote built through its JSON front door) incl. order/count conservation and agreement between the two",
+        "level_text": "Exploration: >10^5 filter sets per quick run, every message decision compared with the specification, forwarded sequence and counters checked.",
+        "level_note": "single-filter semantics are C11's business (same specification function is used here)",
+    },
 }
